@@ -47,7 +47,8 @@ OK_VALUE_ERRORS = ("No trees in data source", "No trees available at requested l
                    "No character data in data source", "No character data available at requested location",
                    "Data source (at offset")      # "... is of type 'standard', but current CharacterMatrix is of type 'dna'"
 
-MATRIX_TYPES = {"dna": "DnaCharacterMatrix", "protein": "ProteinCharacterMatrix", "standard": "StandardCharacterMatrix"}
+MATRIX_TYPES = {"dna": "DnaCharacterMatrix", "protein": "ProteinCharacterMatrix", "standard": "StandardCharacterMatrix",
+                "continuous": "ContinuousCharacterMatrix"}
 
 
 def routes_for(doc):
@@ -465,7 +466,8 @@ class C20(Machine):
                     outcome = "bad_tree"
                     rec.violation("MALFORMED_TREE", dict(base, rule=str(m)), "reader returned a malformed tree: %s; fault=%s" % (m, _short(step)))
                     break
-            if mats:
+            if mats and not cfg["kwargs"].get("ignore_invalid_chars"):
+                # (with ignore_invalid_chars the reader is asked to drop cells: shorter rows are the requested behaviour)
                 dims = declared_dimensions(schema, text)
                 if dims is not None:
                     rec.probe("dimensions_compared")
@@ -524,7 +526,7 @@ class C20(Machine):
                 chunk //= 2
         if plan["config"]["kwargs"]:
             for k in list(plan["config"]["kwargs"]):
-                if k in ("strict", "interleaved", "data_type"):
+                if k in ("strict", "interleaved", "data_type", "ignore_invalid_chars"):
                     continue
                 cand = copy.deepcopy(plan)
                 del cand["config"]["kwargs"][k]
